@@ -353,6 +353,18 @@ func C10Scenarios(tier string) []*Scenario {
 			})
 		}
 	}
+	// two creations of an absent schedule racing each other (same key: the loser is the
+	// idempotent repeat; different keys: the loser is refused with the winner in the body)
+	onlyS2 := func(w *world.World) {
+		w.Do(9, 1, CreateS("s2", every2Seconds, "fixed-{{.id}}", 500, "", nil).F())
+	}
+	for _, pr := range [][2]ReqF{{acts[1], acts[1]}, {acts[1], acts[2]}} {
+		out = append(out, &Scenario{
+			Name: fmt.Sprintf("C10/create-race/%s|%s", pr[0].Label, pr[1].Label), Cfg: world.DefaultConfig(), Clock0: 0, Setup: onlyS2,
+			Clients: [][]ReqF{{pr[0]}, {pr[1]}}, Sweeps: map[string]int{"SchedulePromises": 1}, ClockMenu: []int64{1000},
+			Faults: tierInt(tier, 0, 1), Epilogue: c10Epilogue, Monitors: mon, Bound: -1,
+		})
+	}
 	// a schedule whose promises route to a receiver (the occurrence's promise is born with its task)
 	out = append(out, &Scenario{
 		Name: "C10/routed-promises", Cfg: world.DefaultConfig(), Clock0: 0, Setup: base(routedTags).f,
